@@ -30,7 +30,8 @@ def suite(tree):
     rc, out = sh(f"PYTHONPATH={tree}/src {PY} -m pytest -q -p no:cacheprovider tests 2>&1 | tail -3", cwd=tree)
     lines = [l for l in out.strip().splitlines() if "passed" in l or "failed" in l]
     import re
-    return re.sub(r" in [0-9.]+s.*", "", lines[-1]) if lines else out[-200:]
+    # (the number of warnings is not part of the result: a change may add a deprecation warning)
+    return re.sub(r",? *[0-9]+ warnings?", "", re.sub(r" in [0-9.]+s.*", "", lines[-1])) if lines else out[-200:]
 
 
 def main():
